@@ -226,7 +226,7 @@ func checkInput(r *lib.Run, idx int, cat string, in []byte, pool int, sample boo
 		if e.problem != "" {
 			cls := e.problem + ":" + tr
 			if e.problem == "panic" {
-				cls = "panic:" + tr + ":" + firstDesc(&ex)
+				cls = "panic:" + tr + ":" + baseDesc(firstDesc(&ex))
 			}
 			r.Violation(cls, idx, e.problem+": "+clip(e.detail, 300), mkWitness(tr, pool, cat, in, e, &ex, e.detail))
 			continue
@@ -284,8 +284,9 @@ func firstDesc(ex *expectation) string {
 // ---------------------------------------------------------------- concurrent batches on one server
 
 func concurrentCase(r *lib.Run, idx int) {
-	rng := lib.Rng("C11/concurrent", uint64(idx))
-	pool := 1 + idx%16
+	k := idx - concBase
+	rng := lib.Rng("C11/concurrent", uint64(k))
+	pool := 1 + k%16
 	s := newHsrv(pool) // not cached: shared by several goroutines here
 	clients := 2 + rng.IntN(7)
 	type job struct {
@@ -298,7 +299,7 @@ func concurrentCase(r *lib.Run, idx int) {
 		nb := 1 + rng.IntN(3)
 		for b := 0; b < nb; b++ {
 			pre := fmt.Sprintf("c%db%d_", c, b)
-			g := newGen(lib.Rng("C11/concurrent/gen", uint64(idx)<<16|uint64(c)<<8|uint64(b)), pre)
+			g := newGen(lib.Rng("C11/concurrent/gen", uint64(k)<<16|uint64(c)<<8|uint64(b)), pre)
 			// tagged methods only: the invocation log is split per batch by tag prefix
 			var parts []string
 			n := 1 + rng.IntN(120)
@@ -434,7 +435,10 @@ func websocketConn(r *lib.Run, c, perConn int) {
 	}
 	defer func() { conn.Close(websocket.StatusNormalClosure, "") }()
 	for k := 0; k < perConn; k++ {
-		idx := c*perConn + k
+		idx := wsBase + c*perConn + k
+		if r.Skip(idx) {
+			continue
+		}
 		g := newGen(lib.Rng("C11/ws", uint64(idx)), "w")
 		inS, cat := g.input()
 		in := []byte(inS)
@@ -511,12 +515,49 @@ func websocketConn(r *lib.Run, c, perConn int) {
 
 // ---------------------------------------------------------------- entry point
 
+// case index spaces (so that --replay of one case re-runs exactly that case)
+const (
+	fixedBase = 1_000_000_000
+	concBase  = 2_000_000_000
+	wsBase    = 3_000_000_000
+)
+
+// parallel is lib.Run.Cases for an index space starting at base.
+func parallel(r *lib.Run, n, workers, base int, fn func(idx int)) {
+	ch := make(chan int)
+	var wg sync.WaitGroup
+	for w := 0; w < workers; w++ {
+		wg.Add(1)
+		go func() {
+			defer wg.Done()
+			for i := range ch {
+				func() {
+					defer func() {
+						if p := recover(); p != nil {
+							r.Violation("panic", i, fmt.Sprintf("panic: %v", p), map[string]any{"panic": fmt.Sprint(p)})
+						}
+					}()
+					fn(i)
+				}()
+			}
+		}()
+	}
+	for i := 0; i < n; i++ {
+		if !r.Skip(base + i) {
+			ch <- base + i
+		}
+	}
+	close(ch)
+	wg.Wait()
+}
+
 func TestC11(t *testing.T) {
 	r := lib.Start("C11", "exploration")
 	if err := selfTest(); err != nil {
 		t.Fatalf("oracle self-test failed (harness broken): %v", err)
 	}
-	n := r.N(60000, 1500000)
+	n := r.N(50000, 1500000)
+	t0 := time.Now()
 	var featMu sync.Mutex
 	feats := map[string]int{}
 	r.Cases(n, 0, func(idx int) {
@@ -534,14 +575,19 @@ func TestC11(t *testing.T) {
 	for k, v := range feats {
 		r.Count("generator."+k, v)
 	}
+	t1 := time.Now()
 	// fixed inputs taken from the specification's examples and the boundary of Juno's batch sniffing
 	for i, in := range fixedInputs() {
-		checkInput(r, 1_000_000_000+i, "fixed", []byte(in), 1+i%16, false)
+		if !r.Skip(fixedBase + i) {
+			checkInput(r, fixedBase+i, "fixed", []byte(in), 1+i%16, false)
+		}
 	}
 	nc := r.N(96, 2400)
-	r.Cases(nc, 4, func(idx int) { concurrentCase(r, idx) })
+	parallel(r, nc, 4, concBase, func(idx int) { concurrentCase(r, idx) })
+	t2 := time.Now()
 	nws := r.N(4000, 100000)
 	websocketPhase(r, 8, max(1, nws/8))
+	r.Note(fmt.Sprintf("phase wall (informational): generated inputs %.1fs, fixed+concurrent %.1fs, websocket %.1fs", t1.Sub(t0).Seconds(), t2.Sub(t1).Seconds(), time.Since(t2).Seconds()))
 
 	r.Assume("JSON syntax validity and the extent of the first JSON value are decided by encoding/json on both sides (DESIGN C11); the classifier shares no other code with Juno")
 	r.Assume("test handlers are total and never panic; handler panics (server.go TODO) are outside this property")
@@ -553,7 +599,7 @@ func TestC11(t *testing.T) {
 	r.Assume("the only wall-clock verdict: a request not answered within 60 s is reported as a hang")
 	r.Finish("case = one generated input (grammar over jsonrpc/method/params/id presence and type, ids of every JSON type, positional/named/optional binding, batches mixing valid, invalid, "+
 		"notification and non-object entries, byte-level mutations, arbitrary bytes, deep nesting, huge numbers) sent through HandleReader, HandleReadWriter, HTTP and HTTP+gzip on a server with a "+
-		"1..16-worker pool and 15 recording handlers, plus websocket messages over loopback and rounds of concurrent batches on one shared server; an independent classifier derives per request the acceptable "+
+		"1..16-worker pool and 16 recording handlers, plus websocket messages over loopback and rounds of concurrent batches on one shared server; an independent classifier derives per request the acceptable "+
 		"responses {id, result echo | error code} and the required handler invocation; the monitor requires: no panic/hang, empty output iff nothing must be answered, otherwise well-formed JSON-RPC 2.0 "+
 		"(object for single, array for batch, version, id member, exactly one of result/error), and a one-to-one assignment of responses and recorded invocations (with exact arguments) to requests; "+
 		"distinct = distinct (category, container, multiset of request kinds)", 300)
